@@ -16,8 +16,8 @@ META = dict(
               'comparison exposes state carried between paths; ASan/UBSan run on 1-, 2- and 3-point paths (the empty-path access the model predicts is recorded for C10)',
     category='proof')
 
-QUICK = dict(spec=2600, sign=500, rev=450, local=500, plan_rand=900, raw=900)
-THOROUGH = dict(spec=18000, sign=3000, rev=3000, local=4000, plan_rand=8000, raw=8000)
+QUICK = dict(spec=2600, sign=500, rev=450, local=500, plan_rand=900, raw=900, tiny=210, cb=320)
+THOROUGH = dict(spec=18000, sign=3000, rev=3000, local=4000, plan_rand=8000, raw=8000, tiny=1000, cb=3000)
 
 
 # ----------------------------------------------------------------------------- generators
@@ -279,6 +279,14 @@ def run_kind(ctx, T, rng, kind, cases):
         oc.raw_tie(ctx, T, cases, 'C07 raw', 'c07-raw')
     elif kind == 'c07-asan':
         empty_path_ub(ctx, T)
+    elif kind in ('c07-cbraw', 'c07-cbapi'):
+        for c in cases:
+            c['paths'] = c['groups'][0]['paths']
+        if kind == 'c07-cbraw':
+            oc.callback_raw_tie(ctx, T, cases, 'C07 callback raw', 'c07-cbraw')
+            oc.callback_raw_tie(ctx, T, cases, 'C07 callback raw [asan]', 'c07-cbraw', variant='asan')
+        else:
+            oc.callback_api_eval(ctx, T, cases, 'C07 callback', 'c07-cbapi', variants=('plain', 'asan'))
     else:
         raise vf.Infra('unknown replay kind %r' % kind)
 
@@ -359,8 +367,20 @@ def run(ctx):
 
     # raw curve tie, bit exact
     r4 = rng.fork(4)
-    nbr = oc.raw_tie(ctx, T, raw_cases(r4, B['raw']), 'C07 raw', 'c07-raw')
+    nbr = oc.raw_tie(ctx, T, raw_cases(r4, B['raw']) + oc.tiny_raw_cases(r4, B['tiny'], False), 'C07 raw', 'c07-raw')
     ctx.log('raw tie: %d breaks' % nbr)
+
+    # delta callbacks on open paths (zero at the start / end cap, at inner vertices, everywhere; sign changes): raw curves judged
+    # vertex by vertex; Execute(cb, paths) and the other public entry points; a part of both also under ASan+UBSan
+    r5 = rng.fork(5)
+    cbc = [oc.gen_cb_case(r5, False) for _ in range(B['cb'])]
+    ncb = oc.callback_raw_tie(ctx, T, cbc, 'C07 callback raw', 'c07-cbraw')
+    ncb += oc.callback_raw_tie(ctx, T, cbc[::4], 'C07 callback raw [asan]', 'c07-cbraw', variant='asan')
+    ncb += oc.callback_api_eval(ctx, T, cbc, 'C07 callback', 'c07-cbapi')
+    ncb += oc.callback_api_eval(ctx, T, cbc[::4] + [oc.gen_cb_case(r5, True) for _ in range(B['cb'] // 8)], 'C07 callback', 'c07-cbapi', variants=('plain', 'asan'))
+    for c in cbc:
+        ctx.hist('callback_selection', oc.SEL[c['sel']])
+    ctx.log('delta callbacks: %d cases, %d failing' % (len(cbc), ncb))
 
     # empty path under sanitizers
     empty_path_ub(ctx, T)
